@@ -488,7 +488,10 @@ class Frame:
         kind = 'Exception'
         e = st.exc
         if e is None:
-            kind = getattr(self, '_active_exc', 'Exception')
+            kind = getattr(self, '_active_exc', None) or 'Exception'
+            if getattr(self, '_active_site', None) is not None:
+                # bare `raise` inside a handler: the exception being handled propagates (same failure, same origin)
+                raise SymRaise(kind, self._active_site)
         elif isinstance(e, ast.Call):
             kind = ast.unparse(e.func)
         elif isinstance(e, ast.Name):
@@ -658,12 +661,12 @@ class Frame:
                         handled = True
                         if h.name:
                             self.env[h.name] = Opaque('exc', 'exception', {'kind': e.kind, 'site': e.site})
-                        old = getattr(self, '_active_exc', None)
-                        self._active_exc = e.kind
+                        old = (getattr(self, '_active_exc', None), getattr(self, '_active_site', None))
+                        self._active_exc, self._active_site = e.kind, e.site
                         try:
                             self.block(h.body)
                         finally:
-                            self._active_exc = old
+                            self._active_exc, self._active_site = old
                         break
                 if not handled:
                     raise
